@@ -128,10 +128,10 @@ pub fn check(id: &str, tier: Tier) -> i32 {
         }
         for i in 0..menu.len() {
           for j in i..menu.len() {
-            items.push((Harness { fl, unify: true, min_seg: 8, cap: 256, shape, progs: vec![menu[i].clone(), menu[j].clone()], own_arenas: true, leave: 0, odd: 0 }, b2));
+            items.push((Harness { fl, unify: true, min_seg: 8, cap: 256, shape, progs: vec![menu[i].clone(), menu[j].clone()], own_arenas: true, leave: 0, odd: 0, reserved: 0 }, b2));
             if shape == 3 {
               for k in j..menu.len() {
-                items.push((Harness { fl, unify: true, min_seg: 8, cap: 256, shape, progs: vec![menu[i].clone(), menu[j].clone(), menu[k].clone()], own_arenas: true, leave: 0, odd: 0 }, b3));
+                items.push((Harness { fl, unify: true, min_seg: 8, cap: 256, shape, progs: vec![menu[i].clone(), menu[j].clone(), menu[k].clone()], own_arenas: true, leave: 0, odd: 0, reserved: 0 }, b3));
               }
             }
           }
@@ -179,7 +179,7 @@ pub fn check(id: &str, tier: Tier) -> i32 {
             }
             for tu in tuples(menu, *nt) {
               let progs: Vec<Vec<TOp>> = tu.iter().enumerate().map(|(t, p)| prog(*p, t)).collect();
-              items.push((Harness { fl: *fl, unify: *unify, min_seg: *min_seg, cap: *cap, shape: *shape, progs, own_arenas: false, leave: 0, odd: 0 }, *bound));
+              items.push((Harness { fl: *fl, unify: *unify, min_seg: *min_seg, cap: *cap, shape: *shape, progs, own_arenas: false, leave: 0, odd: 0, reserved: 0 }, *bound));
               count += 1;
             }
           }
@@ -191,7 +191,7 @@ pub fn check(id: &str, tier: Tier) -> i32 {
           for (leave, odd, shape) in [(48u32, 3u8, 3u8), (32, 0, 1)] {
             for tu in tuples(menu, 2) {
               let progs: Vec<Vec<TOp>> = tu.iter().enumerate().map(|(t, p)| prog(*p, t)).collect();
-              items.push((Harness { fl: *fl, unify: true, min_seg: 8, cap: 256, shape, progs, own_arenas: false, leave, odd }, *bound));
+              items.push((Harness { fl: *fl, unify: true, min_seg: 8, cap: 256, shape, progs, own_arenas: false, leave, odd, reserved: 0 }, *bound));
               count += 1;
             }
           }
@@ -217,12 +217,25 @@ pub fn check(id: &str, tier: Tier) -> i32 {
       for shape in &shapes {
         for l in &long {
           for s1 in &single {
-            items.push((Harness { fl, unify: true, min_seg: 8, cap: 256, shape: *shape, progs: vec![l.clone(), s1.clone()], own_arenas: false, leave: 0, odd: 0 }, bound));
+            items.push((Harness { fl, unify: true, min_seg: 8, cap: 256, shape: *shape, progs: vec![l.clone(), s1.clone()], own_arenas: false, leave: 0, odd: 0, reserved: 0 }, bound));
             count += 1;
           }
         }
       }
     }
+    // arenas that were cleared, or whose cursor was moved forward, before the threads start; plain layout with a
+    // reserved prefix included (every handle stays inside the data area, the prefix keeps its bytes)
+    let progs3: Vec<Vec<Vec<TOp>>> = vec![vec![vec![B(16)], vec![B(16)]], vec![vec![B(16), DropOwn], vec![U64]], vec![vec![B(24)], vec![AB(8)]], vec![vec![B(8), B(8)], vec![B(16), DropOwn]]];
+    let mut pcount = 0;
+    for fl in [Fl::Optimistic, Fl::Pessimistic, Fl::None] {
+      for (unify, cap, reserved, shape, leave) in [(false, 230u32, 5u32, 64u8 | 3, 0u32), (true, 256, 0, 64 | 3, 0), (true, 264, 5, 64 | 1, 0), (true, 256, 0, 128 | 3, 48), (false, 225, 0, 128, 64)] {
+        for progs in &progs3 {
+          items.push((Harness { fl, unify, min_seg: 8, cap, shape, progs: progs.clone(), own_arenas: false, leave, odd: 0, reserved }, 2));
+          pcount += 1;
+        }
+      }
+    }
+    bounds.push(json!({"kind": "after clear / after a forward seek of the cursor (plain layout with reserved prefix included)", "threads": 2, "preemption_bound": 2, "harnesses": pcount}));
     // values whose alignment (16) is twice that of a free-list node: served from segments whose payload starts
     // at 8 mod 16, next to a thread that walks or changes the list
     let over: Vec<Vec<TOp>> = vec![vec![T16], vec![T16, DropOwn], vec![B(8), T16]];
@@ -233,7 +246,7 @@ pub fn check(id: &str, tier: Tier) -> i32 {
       for shape in [3u8, 11] {
         for o1 in &over {
           for o2 in &other {
-            items.push((Harness { fl, unify: true, min_seg: 8, cap: 256, shape, progs: vec![o1.clone(), o2.clone()], own_arenas: false, leave: 0, odd: 0 }, ob));
+            items.push((Harness { fl, unify: true, min_seg: 8, cap: 256, shape, progs: vec![o1.clone(), o2.clone()], own_arenas: false, leave: 0, odd: 0, reserved: 0 }, ob));
             ocount += 1;
           }
         }
@@ -254,7 +267,7 @@ pub fn check(id: &str, tier: Tier) -> i32 {
       (Fl::Optimistic, 11, true, 256, vec![vec![B(16)], vec![B(16), DropOwn], vec![B(16), DropOwn]]),
     ];
     for (fl, shape, unify, cap, progs) in reg {
-      items.push((Harness { fl, unify, min_seg: 8, cap, shape, progs, own_arenas: false, leave: 0, odd: 0 }, 3));
+      items.push((Harness { fl, unify, min_seg: 8, cap, shape, progs, own_arenas: false, leave: 0, odd: 0, reserved: 0 }, 3));
     }
     bounds.push(json!({"kind": "regression harnesses (S13)", "threads": 3, "preemption_bound": 3, "harnesses": 5}));
   }
@@ -306,7 +319,7 @@ pub fn calib() -> i32 {
       if progs.len() == 3 && bound > 4 && std::env::var("CALIB_CACHE").is_err() {
         continue;
       }
-      let h = Harness { fl: Fl::Optimistic, unify: true, min_seg: 8, cap: 256, shape: 3, progs: progs.clone(), own_arenas: false, leave: 0, odd: 0 };
+      let h = Harness { fl: Fl::Optimistic, unify: true, min_seg: 8, cap: 256, shape: 3, progs: progs.clone(), own_arenas: false, leave: 0, odd: 0, reserved: 0 };
       let t0 = std::time::Instant::now();
       let xc = ExploreCfg { bound, hb: false, drain: true, prop_of: prop_c02, max_execs: 50_000_000, cache: std::env::var("CALIB_CACHE").is_ok() };
       let st = explore(&run, &h, &xc, "calib");
@@ -339,10 +352,10 @@ pub fn c03_concurrent(run: &Run, thorough: bool) {
       }
       for i in 0..menu.len() {
         for j in i..menu.len() {
-          items.push((Harness { fl, unify: true, min_seg: 8, cap: 320, shape, progs: vec![menu[i].clone(), menu[j].clone()], own_arenas: false, leave, odd }, if thorough { 4 } else { 3 }));
+          items.push((Harness { fl, unify: true, min_seg: 8, cap: 320, shape, progs: vec![menu[i].clone(), menu[j].clone()], own_arenas: false, leave, odd, reserved: 0 }, if thorough { 4 } else { 3 }));
           if thorough && leave == 64 {
             for k in j..menu.len().min(4) {
-              items.push((Harness { fl, unify: true, min_seg: 8, cap: 320, shape, progs: vec![menu[i].clone(), menu[j].clone(), menu[k].clone()], own_arenas: false, leave, odd }, 2));
+              items.push((Harness { fl, unify: true, min_seg: 8, cap: 320, shape, progs: vec![menu[i].clone(), menu[j].clone(), menu[k].clone()], own_arenas: false, leave, odd, reserved: 0 }, 2));
             }
           }
         }
@@ -380,10 +393,10 @@ pub fn c04_concurrent(run: &Run, thorough: bool) {
     for (leave, odd) in [(16u32, 0u8), (24, 0), (16, 3), (24, 5), (40, 1)] {
       for i in 0..menu.len() {
         for j in i..menu.len() {
-          items.push((Harness { fl, unify: true, min_seg: 8, cap: 256, shape: 0, progs: vec![menu[i].clone(), menu[j].clone()], own_arenas: false, leave, odd }, if thorough { 4 } else { 3 }));
+          items.push((Harness { fl, unify: true, min_seg: 8, cap: 256, shape: 0, progs: vec![menu[i].clone(), menu[j].clone()], own_arenas: false, leave, odd, reserved: 0 }, if thorough { 4 } else { 3 }));
           if thorough && leave == 24 {
             for k in j..menu.len().min(4) {
-              items.push((Harness { fl, unify: true, min_seg: 8, cap: 256, shape: 0, progs: vec![menu[i].clone(), menu[j].clone(), menu[k].clone()], own_arenas: false, leave, odd }, 2));
+              items.push((Harness { fl, unify: true, min_seg: 8, cap: 256, shape: 0, progs: vec![menu[i].clone(), menu[j].clone(), menu[k].clone()], own_arenas: false, leave, odd, reserved: 0 }, 2));
             }
           }
         }
@@ -423,9 +436,9 @@ pub fn c15_concurrent(run: &Run, thorough: bool) {
       }
       for unify in [true, false] {
         for act in &actors {
-          items.push((Harness { fl, unify, min_seg: 8, cap: if unify { 256 } else { 225 }, shape, progs: vec![act.clone(), vec![Probe]], own_arenas: false, leave, odd }, if thorough { 4 } else { 3 }));
+          items.push((Harness { fl, unify, min_seg: 8, cap: if unify { 256 } else { 225 }, shape, progs: vec![act.clone(), vec![Probe]], own_arenas: false, leave, odd, reserved: 0 }, if thorough { 4 } else { 3 }));
           if thorough {
-            items.push((Harness { fl, unify, min_seg: 8, cap: if unify { 256 } else { 225 }, shape, progs: vec![act.clone(), vec![Probe], vec![B(300)]], own_arenas: false, leave, odd }, 2));
+            items.push((Harness { fl, unify, min_seg: 8, cap: if unify { 256 } else { 225 }, shape, progs: vec![act.clone(), vec![Probe], vec![B(300)]], own_arenas: false, leave, odd, reserved: 0 }, 2));
           }
         }
       }
@@ -467,7 +480,7 @@ pub fn c08_concurrent(run: &Run, thorough: bool) {
           if menu[i] == vec![DropPre(1)] && menu[j] == vec![DropPre(1)] {
             continue;
           }
-          items.push((Harness { fl, unify: true, min_seg: 8, cap: 256, shape, progs: vec![menu[j].clone(), menu[i].clone()], own_arenas: false, leave, odd }, if thorough { 4 } else { 3 }));
+          items.push((Harness { fl, unify: true, min_seg: 8, cap: 256, shape, progs: vec![menu[j].clone(), menu[i].clone()], own_arenas: false, leave, odd, reserved: 0 }, if thorough { 4 } else { 3 }));
         }
       }
     }
